@@ -11,7 +11,7 @@ import pulsarbat as pb
 from harness import exact as X
 from harness.common import zlit, listlit
 
-VFILES = ['Model/Ufunc.v', 'Proofs/UfuncProofs.v', 'Props/C17.v']
+VFILES = ['Model/Ufunc.v', 'Proofs/UfuncProofs.v', 'Gen/GenUfunc.v', 'Proofs/UfuncGen.v', 'Props/C17.v']
 ATTRS = ('sample_rate', 'start_time', 'center_freq', 'chan_bw', 'freq_align', 'pol_type', 'meta')
 CLS_ID = {'Signal': 0, 'RadioSignal': 1, 'IntensitySignal': 2, 'FullStokesSignal': 3, 'BasebandSignal': 4, 'DualPolarizationSignal': 5}
 
@@ -320,6 +320,51 @@ def run(ctx):
                 ctx.count('asarray_copies')
         except Exception as e:
             ctx.fail('asarray_raised', inp, impl=repr(e))
+
+    # --- a signal that takes part ONLY as a destination: f(array, array-or-scalar, out=signal) ---------------------------------
+    # NumPy dispatches to Signal.__array_ufunc__ for a signal among the outputs too; the values must land in the given signal(s), which
+    # are returned with their own metadata, exactly as when a signal is also among the inputs
+    for c in range(max(40, NC // 8)):
+        f = rng.choice(UFUNCS)
+        L = rng.choice([2, 4, 6])
+        ss = X.sample_shape(rng, 'Signal')
+        a = np.asarray(nprng.uniform(0.5, 3.0, size=(L,) + ss))
+        args = [a] if f.nin == 1 else [a, rng.choice([np.asarray(nprng.uniform(0.5, 3.0, size=(L,) + ss)), 2.5, np.float32(1.5)])]   # no Quantity: astropy's own override then decides (as in the main loop, where out= is not combined with Quantity operands)
+        if f.nin == 2 and rng.random() < 0.3:
+            args = [args[1], args[0]]
+        rawargs = [x.value if isinstance(x, u.Quantity) else x for x in args]
+        try:
+            with np.errstate(all='ignore'):
+                want = f(*rawargs)
+        except Exception:
+            continue
+        want = want if isinstance(want, tuple) else (want,)
+        tg = []
+        for k, w in enumerate(want):
+            if f.nout == 2 and k == 1 and rng.random() < 0.4:
+                tg.append(None)
+            else:
+                tg.append(pb.Signal(np.zeros(np.shape(w), dtype=np.asarray(w).dtype), sample_rate=7 * u.Hz, meta={'tag': 'out%d' % k}))
+        inp = dict(ufunc=f.__name__, arrangement='signal_only_as_out', nin=f.nin, partial=any(t is None for t in tg), shape=list(a.shape),
+                   other=type(args[-1]).__name__)
+        ctx.seen(inp); ctx.count('arr:signal_only_as_out')
+        try:
+            with np.errstate(all='ignore'):
+                res = f(*args, out=tuple(tg))
+        except Exception as e:
+            ctx.fail('ufunc_with_signal_destination_raised', inp, impl=repr(e))
+            continue
+        res = res if isinstance(res, tuple) else (res,)
+        for k, (r, w, t) in enumerate(zip(res, want, tg)):
+            if t is not None:
+                if r is not t:
+                    ctx.fail('out_object_not_returned', inp, impl=type(r).__name__, model='out[%d]' % k)
+                elif t.meta != {'tag': 'out%d' % k} or t.sample_rate != 7 * u.Hz:
+                    ctx.fail('out_signal_metadata_changed', inp)
+                elif not arr_equal(t.data, w):
+                    ctx.fail('out_signal_values', inp)
+            elif not arr_equal(r.data if isinstance(r, pb.Signal) else r, w):
+                ctx.fail('free_output_values', inp)
 
     res = ctx.run_cases(HEADER, items, shard=max(60, len(items) // 16 + 1))
     if res is None:
